@@ -171,6 +171,55 @@ def _chunk(arg: tuple) -> tuple[int, int, list, list]:
     return n_docs, n_assign, traces, value_bad
 
 
+def _editor_chunk(arg: tuple) -> tuple[int, list]:
+    """The same single-token assignments made inside Editor.edit_file: the file afterwards is the input with exactly
+    that token's span replaced (the editor's write-back is a printed output too)."""
+    import os
+    import shutil
+    import tempfile
+    from autobean_refactor import editor as editor_lib
+    flavors, docs = arg
+    out = []
+    n = 0
+    top = tempfile.mkdtemp(prefix='verif_c02_')
+    try:
+        ed = editor_lib.Editor()
+        for dk, d in enumerate(docs):
+            text = doclib.render(d, flavors[0])
+            try:
+                f0 = tree.parse(text)
+            except Exception:  # noqa: BLE001
+                continue
+            toks = list(f0.token_store)
+            spans = []
+            pos = 0
+            for t in toks:
+                spans.append((pos, pos + len(t.raw_text)))
+                pos += len(t.raw_text)
+            cands = [(i, alt) for i, t in enumerate(toks) for alt in ALTS.get(t.RULE, [])[:2]
+                     if alt != t.raw_text and not isinstance(t, (models.BlockComment, models.Indent))]
+            for i, alt in cands[:: max(1, len(cands) // 6)]:
+                path = os.path.join(top, f'd{dk}_{i}.bean')
+                with open(path, 'w', newline='') as fh:
+                    fh.write(text)
+                try:
+                    with ed.edit_file(path) as f:
+                        list(f.token_store)[i].raw_text = alt
+                except Exception as e:  # noqa: BLE001
+                    out.append((text, i, f'editor session with raw_text = {alt!r} raised {type(e).__name__}: {e}'))
+                    continue
+                n += 1
+                with open(path, newline='') as fh:
+                    got = fh.read()
+                want = text[:spans[i][0]] + alt + text[spans[i][1]:]
+                if got != want:
+                    out.append((text, i, f'after raw_text = {alt!r} inside Editor.edit_file the file holds {got!r}, expected {want!r}'))
+                os.unlink(path)
+    finally:
+        shutil.rmtree(top, ignore_errors=True)
+    return n, out
+
+
 def core(prop: str, tier: str, rep: common.Reporter) -> dict:
     seed = common.seed()
     if tier == 'quick':
@@ -205,6 +254,14 @@ def core(prop: str, tier: str, rep: common.Reporter) -> dict:
                         rep.violation('C19/doc-assign/refused-value-kept', {'what': alt, 'text': text, 'token': i})
                 elif prop == 'C02':
                     rep.violation('C02/assignment-failed', {'what': alt, 'text': text, 'token': i})
+    n_editor = 0
+    if prop == 'C02':
+        with mp.Pool(16) as pool:
+            sample = docs[:: max(1, len(docs) // (240 if tier == 'quick' else 1500))]
+            for ne, eo in common.gmap(pool, rep, _editor_chunk, [(flavors, ch) for ch in common.chunked(sample, 12)]):
+                n_editor += ne
+                for text, i, msg in eo:
+                    rep.violation('C02/editor-write-back', {'what': msg, 'text': text, 'token': i})
     tv = tracecheck.validate_store_traces(traces, batch=2500)
     for e in tv['errors']:
         rep.machinery_error(f'trace validation: {e}')
@@ -237,7 +294,7 @@ def core(prop: str, tier: str, rep: common.Reporter) -> dict:
     cov = {
         'states': tv['tlc_states'] + r.distinct + r3.distinct, 'transitions': tv['tlc_transitions'] + r.generated + r3.generated,
         'traces_validated_against_impl': tv['accepted'] + len(tv['rejected']),
-        'documents': n_docs, 'assignments': n_assign, 'recorded_events': tv['events'], 'sensitivity': sens,
+        'documents': n_docs, 'assignments': n_assign, 'assignments_inside_editor_sessions': n_editor, 'recorded_events': tv['events'], 'sensitivity': sens,
         'samples': [traces[len(traces) // 2]] if traces else [],
         'rule': 'every token of every Layout document (per-kind replacement texts: same width, wider, narrower, '
                 'adding / removing line breaks; via value and via raw_text), plus random sequences of 2-3 assignments; '
